@@ -87,7 +87,8 @@ def _ast_shape(ast) -> str:
 
 def run_shard(sh, cfg: Config):
     examples = int(sh.params["examples"] * sh.params.get("scale", 1.0))
-    injector = T.Injector(cfg.classes, blocked=make_blocked(sh.quarantine), allow_string_interp=cfg.allow_string_interp, weights=cfg.weights, allow_attrpath=cfg.allow_attrpath)
+    one_per = any(q.get("flags", {}).get("one_comment_per_construct") for q in (sh.quarantine or []))
+    injector = T.Injector(cfg.classes, blocked=make_blocked(sh.quarantine), allow_string_interp=cfg.allow_string_interp, weights=cfg.weights, allow_attrpath=cfg.allow_attrpath, one_comment_per_construct=one_per)
 
     def kinds_of(fails):
         return {k for k, _ in fails}
